@@ -48,6 +48,19 @@ def set_states(values, then='return'):
     return len(values)
 
 
+def update_state_in_place(n, then='return'):
+    """updates a mutable user_state IN PLACE n times (take it, change it, assign the same object back), then returns / raises"""
+    me = _me()
+    for i in range(n):
+        s = me.user_state
+        s['count'] += 1
+        s['log'].append(i)
+        me.user_state = s
+    if then == 'raise':
+        raise ValueError('boom')
+    return n
+
+
 def set_state_and_raise(x):
     me = _me()
     me.user_state = ('child', x)
